@@ -14,6 +14,9 @@ type Value struct {
 
 // Set returns ~400 JSON texts: trees of depth <= 2, single-string and single-number arrays,
 // and alternative spellings (member order, whitespace, escapes, number forms) of some of them.
+// Thorough switches the larger value set on (depth-3 trees and more numbers).
+var Thorough bool
+
 func Set() []Value {
 	var out []Value
 	g := 0
@@ -50,6 +53,26 @@ func Set() []Value {
 		add("["+strconv.FormatFloat(f, 'g', -1, 64)+"]", "["+strconv.FormatFloat(f, 'e', 17, 64)+"]")
 	}
 	add(`[0]`, `[-0]`, `[0.0]`, `[0e5]`)
+	if Thorough {
+		var lvl2 []string
+		for _, a := range leaves {
+			lvl2 = append(lvl2, "["+a+"]", `{"b":`+a+`}`)
+		}
+		for _, a := range lvl2 {
+			add("["+a+"]", "[\n"+a+"]")
+			add(`{"c":` + a + `}`)
+			for _, b := range leaves {
+				add("[" + a + "," + b + "]")
+				add(`{"z":`+a+`,"y":`+b+`}`, `{"y":`+b+`,"z":`+a+`}`)
+			}
+		}
+		for e := -20; e <= 25; e++ {
+			f, _ := strconv.ParseFloat(fmt.Sprintf("1e%d", e), 64)
+			add("["+strconv.FormatFloat(f, 'g', -1, 64)+"]", "["+strconv.FormatFloat(f, 'e', 17, 64)+"]")
+			g, _ := strconv.ParseFloat(fmt.Sprintf("3.5e%d", e), 64)
+			add("[" + strconv.FormatFloat(g, 'g', -1, 64) + "]")
+		}
+	}
 	add(`{"publicKey":[{"id":"k1","type":"T"}],"service":[]}`, fmt.Sprintf(`{"service":[],"publicKey":[{"type":"T","id":%q}]}`, "k1"))
 	add(`{"publicKey":[{"id":"k2","type":"T"}],"service":[]}`)
 	add(`{"publicKey":[{"id":"k1","type":"T"}]}`)
